@@ -17,7 +17,7 @@ pub struct BudgetExceeded {
 #[derive(Debug, Clone)]
 pub struct ContractViolation(pub String);
 
-pub const N_PROBES: usize = 40;
+pub const N_PROBES: usize = 42;
 
 #[derive(Clone, Copy, Debug, PartialEq, Eq)]
 #[repr(usize)]
@@ -63,6 +63,8 @@ pub enum Probe {
     SlowIndentPath,
     LongPlainChunk,
     EscapeSeen,
+    NestedDecodeInRead,
+    NestedDecodeInTrap,
 }
 
 pub const PROBE_NAMES: [&str; N_PROBES] = [
@@ -106,12 +108,14 @@ pub const PROBE_NAMES: [&str; N_PROBES] = [
     "block_scalar_indent_slow_path(indent>=cap-2)",
     "plain_scalar_longer_than_capacity",
     "escape_sequence_scanned",
+    "nested_decode_from_reader",
+    "nested_decode_from_trap_callback",
 ];
 
 /// Which probes count as *injected faults* (reported under fault_counts) as opposed to
 /// rare-condition probes.
 pub fn is_fault(p: usize) -> bool {
-    const F: [Probe; 17] = [
+    const F: [Probe; 19] = [
         Probe::BreakPushedBack,
         Probe::BreakLeftUnconsumed,
         Probe::SourceEofEarly,
@@ -129,6 +133,8 @@ pub fn is_fault(p: usize) -> bool {
         Probe::EncSplice,
         Probe::TrapBreakEmpty,
         Probe::TrapBreakMsg,
+        Probe::NestedDecodeInRead,
+        Probe::NestedDecodeInTrap,
     ];
     F.iter().any(|f| *f as usize == p)
 }
